@@ -11,7 +11,27 @@ declare_class('URLInfo', {'raw': TStr(), 'scheme': TStr(), 'hostname': TOpt(TStr
 declare_class('URLRecord', {'url': TStr(), 'level': TInt(), 'inline_level': TOpt(TInt()), 'try_count': TInt(),
                             'parent_url': TOpt(TStr()), 'root_url': TOpt(TStr()), 'status_code': TOpt(TInt())})
 
+declare_class('AppSession', {'args': TObj('Args'), 'factory': TObj('Factory')})
+declare_class('Factory', {'item:FetchRule': TObj('FetchRule'), 'item:ResultRule': TObj('ResultRule'), 'item:DemuxURLFilter': TObj('DemuxURLFilter'), 'item:URLTable': TObj('URLTable')})
+declare_class('URLTable', {})
+
+declare_class('FetchRule', {})
+declare_class('ResultRule', {})
+declare_class('DemuxURLFilter', {})
 _parse = z3.Function('url_parse', z3.StringSort(), z3.IntSort())
 _parseable = z3.Function('url_parseable', z3.StringSort(), z3.BoolSort())
 SPECFUNS['url_parse'] = lambda ex, st, s: VRef(_parse(s.term), 'URLInfo')
 SPECFUNS['parseable'] = lambda ex, st, s: VBool(_parseable(s.term))
+
+# ---- URL record accessors used by filters -------------------------------------------------------------------
+# stored URLs went through URLInfo.parse(...).url before they were stored (table invariant): re-parsing them does not raise
+Assumed('wpull/pipeline/item.py', 'URLProperties.parent_url_info', {'self': TObj('URLRecord')}, name='URLRecord.parent_url_info',
+        ret=TOpt(TObj('URLInfo')), is_property=True, pure=True, reads=['self.parent_url'],
+        requires=['implies(self.parent_url is not None, parseable(self.parent_url))'],
+        ensures=['(result is None) == (self.parent_url is None)', 'implies(self.parent_url is not None, result == url_parse(self.parent_url))'],
+        raises={})
+Assumed('wpull/url.py', 'URLInfo.parse', {'cls': TAny(), 'url': TStr()}, ret=TObj('URLInfo'),
+        requires=['parseable(url)'], ensures=['result == url_parse(url)'], raises={}, name='URLInfo.parse')
+Assumed('wpull/url.py', 'URLInfo.url', {'self': TObj('URLInfo')}, ret=TStr(), is_property=True, pure=True, raises={}, name='URLInfo.url',
+        note='accessor; its own contract is verified under C10/C11')
+
